@@ -1186,6 +1186,18 @@ def register_all(M):
         return Agg("Ordering", "Less" if kx < ky else "Greater" if kx > ky else "Equal", [])
     M.add(r"<(?:String|str|&str|PathBuf|(?:std::path::)?Path|&(?:std::path::)?Path|&PathBuf) as Ord>::cmp|<(?:String|str|PathBuf) as PartialOrd>::partial_cmp", text_cmp)
 
+    def opt_text_cmp(c, m, a):
+        # Option<T>: None < Some(_); two Some compare by their payload (text only)
+        x, y = deref(a[0]), deref(a[1])
+        if x.variant != "Some" or y.variant != "Some":
+            rank = lambda o: 1 if o.variant == "Some" else 0
+            return Agg("Ordering", "Less" if rank(x) < rank(y) else "Greater" if rank(x) > rank(y) else "Equal", [])
+        return text_cmp(c, m, [x.fields[0], y.fields[0]])
+    M.add(r"<Option<(?:String|&str|PathBuf)> as Ord>::cmp", opt_text_cmp)
+
+    M.add(r"<(?:std::cmp::)?Ordering as PartialEq>::eq", lambda c, m, a: SBool(deref(a[0]).variant == deref(a[1]).variant))
+    M.add(r"<(?:std::cmp::)?Ordering as PartialEq>::ne", lambda c, m, a: SBool(deref(a[0]).variant != deref(a[1]).variant))
+
     def slice_contains(c, m, a):
         items = as_items(a[0])
         return sbool(z_or([elem_eq(c, x, a[1]) for x in items]))
